@@ -114,7 +114,8 @@ pub fn run(args: &Args, out: &mut Out) {
                 let cfg = Cfg {
                     proto: Protocol::Tcp, strategy: MultipathStrategy::Classic, portdir: pd,
                     target: "10.0.0.9".parse().unwrap(), trace_id: 0, max_rounds: 2, first_ttl: 1, max_ttl: 6,
-                    grace_ns: 0, max_inflight: 24, initial_sequence: 33434, min_ns: 0, max_ns: 50_000_000, max_samples: 256, max_flows: 64,
+                    // (a refused attempt costs virtual time: the round must outlast the whole burst)
+                    grace_ns: 0, max_inflight: 24, initial_sequence: 33434, min_ns: 0, max_ns: 5_000_000_000, max_samples: 256, max_flows: 64,
                 };
                 let mut sends = vec![0u8; pre];
                 sends.extend(std::iter::repeat(2u8).take(burst));
@@ -185,6 +186,28 @@ pub fn run(args: &Args, out: &mut Out) {
                 out.case(&input, &format!("err={} visible={} after_clear={}", u8::from(is_err), u8::from(snap.is_some()), u8::from(after_clear.is_some())), &if fails.is_empty() { "ok".to_string() } else { format!("FAIL:{}", fails.join(";")) });
             }
         }
+    }
+    // the same failing start while another thread keeps calling clear(): whatever the interleaving, the error must be in the snapshots
+    // taken after both have finished
+    for v6 in [false, true] {
+        let (target, source): (std::net::IpAddr, std::net::IpAddr) = if v6 { ("2001:db8::9".parse().unwrap(), "2001:db8::77".parse().unwrap()) } else { ("192.0.2.9".parse().unwrap(), "192.0.2.1".parse().unwrap()) };
+        let runs = if args.tier_thorough { 2000 } else { 300 };
+        let mut lost = 0usize;
+        let mut errs = 0usize;
+        for _ in 0..runs {
+            let Ok(tracer) = trippy_core::Builder::new(target).source_addr(Some(source)).max_rounds(Some(1)).build() else { continue };
+            let t2 = tracer.clone();
+            let done = std::sync::Arc::new(std::sync::atomic::AtomicBool::new(false));
+            let d2 = done.clone();
+            let h = std::thread::spawn(move || { let r = t2.run(); d2.store(true, std::sync::atomic::Ordering::SeqCst); r.is_err() });
+            while !done.load(std::sync::atomic::Ordering::SeqCst) { tracer.clear(); }
+            let is_err = h.join().unwrap_or(false);
+            tracer.clear();
+            if is_err { errs += 1; if tracer.snapshot().error().is_none() { lost += 1; } }
+        }
+        let input = format!("startuprace {}", if v6 { 6 } else { 4 });
+        let fails = if lost > 0 { format!("FAIL:C09:error_of_the_ended_run_lost_by_a_concurrent_clear()_in_{lost}_of_{errs}_runs") } else { "ok".to_string() };
+        out.case(&input, &format!("lost={}", u8::from(lost > 0)), &fails);
     }
     vclock::enable(vclock::BASE_NS);
     out.stat("sequence_budget_edge_scripts", edge);
